@@ -24,6 +24,8 @@ pub struct Splice {
     pub nth: usize,
     pub text: String,
     pub obligation: Option<String>,
+    /// anchor written `~ PATTERN`: the innermost statement that CONTAINS the pattern anywhere
+    pub contains: bool,
 }
 
 #[derive(Clone, Debug, Default)]
@@ -329,6 +331,10 @@ fn parse_into(text: &str, path: &str, include_dir: &str, unit: &mut Unit) -> Res
                         if !matches!(place.as_str(), "before" | "after" | "replace" | "start" | "end" | "tail" | "lowered-before" | "lowered-after" | "ret") {
                             return Err(format!("{}: bad splice place `{}`", origin, place));
                         }
+                        let (contains, rest) = match rest.strip_prefix('~') {
+                            Some(r) => (true, r.trim().to_string()),
+                            None => (false, rest),
+                        };
                         let anchor = if rest.is_empty() { Vec::new() } else { parse_pattern(&rest)? };
                         t.splices.push(Splice {
                             place,
@@ -337,6 +343,7 @@ fn parse_into(text: &str, path: &str, include_dir: &str, unit: &mut Unit) -> Res
                             nth,
                             text,
                             obligation,
+                            contains,
                         });
                     }
                     _ => return Err(format!("{}: unknown directive @{}", origin, other)),
